@@ -459,7 +459,7 @@ class CharsTake(It):
         lo_t, hi_t = bounds(total)
         ln = Sym("min", (n, total), "usize", min(lo_n, lo_t), min(hi_n, hi_t))
         I.run.event("prefix_of", self.b.id, n)
-        return Bytes([("pay", Payload("str", cs, ln, origin="prefix_of:%d" % self.b.id))], True)
+        return Bytes([("pay", Payload("str", cs, ln, origin="prefix_of:%d" % self.b.src_id))], True)
 
 
 class CharVec:
@@ -516,7 +516,8 @@ class CharVecIt(It):
             cs |= M.char_set(I, val)
         ln = bytes_len(I, cv.b)
         I.run.event("replaced_chars", cv.b.id, len(cv.replaced))
-        return Bytes([("pay", Payload("str", cs, ln, origin="charvec_of:%d:%d" % (cv.b.id, len(cv.replaced))))], True)
+        reps = [frozenset(M.char_set(I, val)) for idx, val in cv.replaced]
+        return Bytes([("pay", Payload("str", cs, ln, origin="charvec_of:%d:%d" % (cv.b.src_id, len(cv.replaced)), meta={"replaced": reps}))], True)
 
     def next(self, I):
         raise I.unanalysable("element-wise Vec<char> iteration")
